@@ -69,6 +69,7 @@ func summarizeDeltaInterp(p *core.Prog, fn *ssa.Function, perIteration bool) []d
 	size := p.Field(pkgStore, "baseStore", "totalSizeBytes")
 	cfg := &core.SymConfig{
 		Fn:        fn,
+		Inline:    2, // the sizes of a delta may be computed by a small helper of the package
 		IntFields: map[*types.Var]string{size: "size"},
 		MapFields: map[*types.Var]string{kv: "kv"},
 		Root: func(v ssa.Value) (string, bool) {
